@@ -107,6 +107,17 @@ def run_case(case):
     A, bad = build_checked(desc, prime=bool(sum(case["rs"]) % 2))
     if A is None:
         return bad
+    if sum(case["rs"]) % 6 == 4:
+        # the operator went through a serialisation round trip (pickle to a worker process, a
+        # deep copy kept as a checkpoint) between construction and use: what comes back is
+        # the same operator with the same adjoint
+        import copy
+        import pickle
+        try:
+            A = pickle.loads(pickle.dumps(A)) if sum(case["rs"]) % 12 == 4 else copy.deepcopy(A)
+            sig += "|roundtrip"
+        except Exception:
+            pass                      # (not every captured callable can be pickled)
     wit = {"desc": desc, "dtype": dt.name, "repr": repr(A)}
     tol = 1e-10 if dt == np.complex128 else 2e-4
     checks = 0
